@@ -2,25 +2,28 @@
    Only property theorems here, each closed by [exact <lemma>] and followed by Print Assumptions.
 
    Objects.  run_interp (Back/InterpSem + Driver/ShadowGate) = the tree-walking evaluator nanoc runs on every shadow
-   block, AS IT IS (one symbol stack shared by all active calls and all shadow blocks, nothing popped at block exit,
-   assertion failures counted, literals unescaped ...), tied to the real `nanoc --verbose` by tools/props/c03.py.
+   block, AS IT IS (one symbol stack shared by all active calls: dynamic scoping; blocks pop their symbols since fix
+   9481a65; `set` ignores mutability; assertion failures counted; literals unescaped ...), tied to the real
+   `nanoc --verbose` by tools/props/c03.py.
    ref_test = the reference semantics (Lang/Ref) of one shadow block.  nat_test = the native engine's model
    (Back/NatSem, arguments left to right), which Back/Agree proves equal to the reference.
-   names_apart sp (Back/NamesApart, an executable check): no binder is spelled like a top-level constant; inside one
-   function no binder re-uses a name in scope; no escapes in string literals.
+   names_apart sp (Back/NamesApart, an executable check): no binder (parameter, let, for variable) is spelled like a
+   top-level constant; no escapes in string literals.  Nothing is asked any more about names re-used inside a function
+   (inner-block shadowing, duplicate parameters: all inside the theorem since the evaluator pops blocks).
 
    What is proved at full strength: under names_apart, along the shadow blocks for as long as the reference passes them,
    the evaluator prints the reference's text, records only true assertions when the reference passes and a false one when
    the reference fails an assertion (interp_correct), it terminates whenever the reference passes (interp_total), a
    block that passes at compile time passes in the compiled program with the same output (pass_at_compile_time_...).
-   Without names_apart the statement is false: _refuted witnesses (SPECIFICATION section 8.1 program, block-exit program),
-   replayed on the real nanoc on every check (KNOWN-FINDING c03:dynamic-scope, c03:block-exit). *)
+   Without names_apart the statement is false: _refuted witnesses (SPECIFICATION section 8.1 program; a parameter named
+   like a constant), replayed on the real nanoc on every check (KNOWN-FINDING c03:dynamic-scope, c03:dynamic-scope-param).
+   The block-exit program, refuted before fix 9481a65, is now an Example inside the theorem (C03_block_shadowing_agrees). *)
 From Coq Require Import ZArith NArith List Bool.
 From NV Require Import Lang.Ast Lang.Ref Back.InterpSem Back.InterpLemmas Driver.ShadowGate Back.NamesApart Back.InterpSemProofs
                        Back.InterpCorrect Back.InterpWitness Back.InterpRefuted Back.NatSem Back.Agree.
 Import ListNotations.
 
-(* the core simulation: expressions, statements and for loops, every fuel, every stack split  own ++ outer ++ globals ++ leftovers *)
+(* the core simulation: expressions, statements and for loops, every fuel, every stack  en ++ outer ++ globals ++ leftovers *)
 Theorem C03_interp_simulates_ref : forall fns gn, (forall d, In d fns -> fn_ok gn d = true) ->
   forall fuel, expr_agree fns gn fuel /\ stmt_agree fns gn fuel /\ for_agree fns gn fuel.
 Proof. exact all_agree. Qed.
@@ -70,8 +73,8 @@ Proof. exact iexec_mono. Qed.
 Print Assumptions C03_assertion_log_monotone.
 
 (* ---- without names_apart the property is false in the model of the unchanged evaluator *)
-Theorem C03_interp_correct_refuted : refutes sp81 60 /\ refutes spblk 60.
-Proof. exact (conj refuted_spec_8_1 refuted_block_exit). Qed.
+Theorem C03_interp_correct_refuted : refutes sp81 60 /\ refutes sp81p 60.
+Proof. exact (conj refuted_spec_8_1 refuted_param). Qed.
 Print Assumptions C03_interp_correct_refuted.
 
 Theorem C03_false_assertion_passes_refuted :
@@ -86,6 +89,11 @@ Print Assumptions C03_false_assertion_passes_refuted.
 (* ---- the hypotheses are satisfiable, the conclusions observable *)
 Example C03_names_apart_satisfiable : names_apart spgood = true /\ names_apart spgood_failing = true.
 Proof. exact good_is_apart. Qed.
+Example C03_block_shadowing_agrees :
+  names_apart spblk = true /\
+  exists rs sk stk, run_interp 60 spblk [] = TDone rs sk stk /\ all_passed rs = true /\ map tr_out rs = [[50; 10; 49; 10]]%N /\
+  ref_tests 60 spblk = Some [(2%N, Ok (CNormal, []) [50; 10; 49; 10]%N)].
+Proof. exact block_shadowing_agrees. Qed.
 Example C03_good_program_runs :
   exists rs sk stk, run_interp 200 spgood [] = TDone rs sk stk /\ all_passed rs = true /\
                     map tr_out rs = [[]; [55; 10; 56; 10; 49; 48; 10]; []]%N.
